@@ -2,6 +2,7 @@
 mod cmd_core;
 mod cmd_sim;
 mod cmd_set;
+mod cmd_enrich;
 mod enc;
 mod paths;
 mod project;
@@ -21,6 +22,7 @@ fn main() {
         "replay-core" => cmd_core::run(&args),
         "replay-sim" => cmd_sim::run(&args),
         "replay-set" => cmd_set::run(&args),
+        "replay-enrich" => cmd_enrich::run(&args),
         "replay-one" => {
             let text = std::fs::read_to_string(args.req("file")).unwrap_or_else(|e| {
                 eprintln!("cannot read replay file: {e}");
@@ -34,6 +36,7 @@ fn main() {
                 "replay-core" => cmd_core::replay_one(&v),
                 "replay-sim" => cmd_sim::replay_one(&v),
                 "replay-set" => cmd_set::replay_one(&v),
+                "replay-enrich" => cmd_enrich::replay_one(&v),
                 other => {
                     eprintln!("unknown replay cmd {other}");
                     std::process::exit(2)
